@@ -139,7 +139,7 @@ pub fn d1(ls: &[E], subset: &[E]) -> Vec<E> {
         }
     }
     let l = |i: i64| E::Lit(Lit::Int(i));
-    for args in [vec![l(2021), l(1), l(2), l(3), l(4), l(5), l(6)], vec![l(2021), l(2), l(29), l(0), l(0), l(0), l(0)], vec![E::Col("i".into()), l(1), l(1), l(0), l(0), l(0), l(0)], vec![l(2020), l(2), l(29), l(23), l(59), l(59), l(999999)]] {
+    for args in [vec![l(4294969321), l(1), l(1), l(0), l(0), l(0), l(0)], vec![l(2021), l(4294967297), l(1), l(0), l(0), l(0), l(0)], vec![l(2021), l(1), l(4294967297), l(0), l(0), l(0), l(0)], vec![l(2021), l(1), l(1), l(4294967296), l(4294967296), l(4294967296), l(4294967296)], vec![l(2021), l(1), l(1), l(0), l(0), l(0), l(1000000)], vec![l(2021), l(13), l(1), l(0), l(0), l(0), l(0)], vec![l(2021), l(1), l(1), l(-1), l(0), l(0), l(0)], vec![l(2021), E::Col("i".into()), E::Col("j".into()), l(0), l(0), l(0), l(0)], vec![l(2021), l(1), l(2), l(3), l(4), l(5), l(6)], vec![l(2021), l(2), l(29), l(0), l(0), l(0), l(0)], vec![E::Col("i".into()), l(1), l(1), l(0), l(0), l(0), l(0)], vec![l(2020), l(2), l(29), l(23), l(59), l(59), l(999999)]] {
         out.push(E::Call("make_timestamp", args));
     }
     // CASE: only the conditions up to the first true one (and only the chosen result) are evaluated
